@@ -162,6 +162,14 @@ inductive Out
   | bad
   deriving Repr, DecidableEq
 
+/-- `p.other = q` proper: clear own cache, unregister from the previous other, register with the new one, store it -/
+def setOtherCore (s : State) (p : Nat) (q : Option Nat) : State × Out :=
+  match s.objs[p]? with
+  | none => (s, .bad)
+  | some po =>
+    if (match q with | some q => decide (s.objs.length ≤ q) | none => false) then (s, .bad) else
+    ({ s with objs := setOtherObjs s.objs p po.other q }, .done)
+
 def step (fl : Flags) (s : State) : Op → State × Out
   | .create vals =>
     ({ mems := s.mems ++ [vals], objs := s.objs ++ [{ mem := s.mems.length, idx := List.range vals.length }] }, .done)
@@ -181,9 +189,10 @@ def step (fl : Flags) (s : State) : Op → State × Out
     match s.objs[p]? with
     | none => (s, .bad)
     | some po =>
-      if (match q with | some q => decide (s.objs.length ≤ q) | none => false) then (s, .bad) else
-      -- __setattr__: clear own cache, unregister from the previous other, register with the new one, store it
-      ({ s with objs := setOtherObjs s.objs p po.other q }, .done)
+      -- __setattr__: an attachment that is replaced or removed is a change like an item assignment
+      -- (`if prev_attr_value is not None: self._clear_dependent_caches()`, fix 9efe2d6); a first attachment clears the
+      -- object's own cache only
+      setOtherCore (if po.other.isSome then { s with objs := clearCaches s.objs (clearSet fl s p) } else s) p q
   | .setItem p k v =>
     match s.objs[p]? with
     | none => (s, .bad)
